@@ -6,6 +6,7 @@ mod arrcheck;
 mod conv;
 mod ctx;
 mod evalx;
+mod functors;
 mod gen;
 mod iso;
 mod model;
